@@ -246,10 +246,27 @@ impl<'a> Binder<'a> {
             }
         };
         if q_limit.is_some() || q_offset.is_some() {
+            // `LIMIT NULL` / `OFFSET NULL` mean "no limit" / "no offset". Any
+            // other operand that is not a non-negative integer literal is an
+            // error: dropping it would silently return every row.
+            let is_null = |e: &SqlExpr| {
+                matches!(
+                    e,
+                    SqlExpr::Value(ast::ValueWithSpan {
+                        value: ast::Value::Null,
+                        ..
+                    })
+                )
+            };
             let skip = q_offset
-                .and_then(|o| self.expr_to_usize(&o.value).ok())
+                .filter(|o| !is_null(&o.value))
+                .map(|o| self.expr_to_usize(&o.value))
+                .transpose()?
                 .unwrap_or(0);
-            let fetch = q_limit.and_then(|l| self.expr_to_usize(l).ok());
+            let fetch = q_limit
+                .filter(|l| !is_null(l))
+                .map(|l| self.expr_to_usize(l))
+                .transpose()?;
 
             plan = LogicalPlan::Limit(LimitNode {
                 input: Arc::new(plan),
